@@ -64,7 +64,10 @@ def build(top, ctx):
     from .lib import Sequence
 
     def common_job_kwds(node):
-        return dict(forever=node['forever'], critical=node['critical'])
+        crit = node['critical']
+        if node.get('crit_method'):
+            crit = not crit         # is_critical() is overridden: workload.py
+        return dict(forever=node['forever'], critical=crit)
 
     def make_job(node, **kwds):
         cls = w.SimJob if node['cls'] == 'abstract' else w.SimCoroJob
@@ -90,7 +93,7 @@ def build(top, ctx):
             cls, jk = w.SimPureScheduler, {}
         else:
             cls = w.SimScheduler
-            jk = dict(forever=node['forever'], critical=node['critical'])
+            jk = common_job_kwds(node)
             jk.update(kwds)
         members = node['members']
         reqs = [[] for _ in members]
